@@ -2160,8 +2160,15 @@ class Node(_protocols.NodeProtocol, _display.PrettyPrintable):
         # very often. This way all mutations can be tracked.
         # If necessary, we can cache the inputs and outputs as tuples.
         self._inputs: tuple[Value | None, ...] = tuple(inputs)
-        # Validate the attributes before adopting any supplied output value, so that
-        # a rejected call does not leave the outputs owned by a half-built node
+        # Validate the arguments before adopting any supplied output value or joining
+        # the graph, so that a rejected call does not leave a half-built node behind
+        for input_value in self._inputs:
+            if input_value is not None and not isinstance(input_value, Value):
+                raise TypeError(
+                    f"Expected the inputs to be Value or None, got {type(input_value)}"
+                )
+        if graph is not None and not isinstance(graph, (Graph, Function)):
+            raise TypeError(f"Expected graph to be a Graph or a Function, got {type(graph)}")
         if isinstance(attributes, Mapping):
             attributes = tuple(attributes.values())
         self._attributes: _graph_containers.Attributes = _graph_containers.Attributes(
